@@ -900,23 +900,48 @@ def opFacts : OpFacts :=
 			}
 			indexOperand = kindTest && genTest && nilTest
 		}
-		// assignStmt: the receive shortcut is skipped when the types differ
-		recvDecl := false
+		// assignStmt: the in-place receive shortcut ("assign by reading from a receiving channel")
+		recvDecl := ".other " + common.LeanStr("unrecognised: no assignStmt clause")
 		if c := clauseWith(cl, "assignStmt", "check.assignExpr(n, dest, src)"); c != nil {
-			if ic := innerCase(c, "src.action == aRecv && !isCommRecvAssign(n)"); ic != nil && len(ic.Body) > 0 {
-				if is, ok := ic.Body[0].(*ast.IfStmt); ok && src(is.Cond) == "dest.typ.id() != src.typ.id()" && endsWith(is.Body, "break") {
-					recvDecl = true
+			recvDecl = ".plain"
+			if ic := innerCase(c, "src.action == aRecv &&"); ic != nil {
+				recvDecl = ".legacy"
+				switch {
+				case src(ic.List[0]) != "src.action == aRecv && !isCommRecvAssign(n)" || !strings.Contains(src(ic), "dest.typ = src.typ"):
+					recvDecl = ".other " + common.LeanStr(src(ic.List[0]))
+				case len(ic.Body) > 0:
+					if is, ok := ic.Body[0].(*ast.IfStmt); ok {
+						if src(is.Cond) == "dest.typ.id() != src.typ.id()" && endsWith(is.Body, "break") {
+							recvDecl = ".guarded"
+						} else {
+							recvDecl = ".other " + common.LeanStr(src(is.Cond))
+						}
+					}
 				}
+			} else if strings.Contains(src(c), "dest.typ = src.typ") {
+				recvDecl = ".other " + common.LeanStr("the destination is retyped outside a receive case")
 			}
 		}
-		// unaryExpr: the interface-destination test of the `v = <op> x` shortcut also applies to a receive
-		recvAssign := false
+		// unaryExpr: how the `v = <op> x` shortcut treats a receive
+		recvAssign := ".other " + common.LeanStr("unrecognised: no assignment shortcut in the unaryExpr clause")
 		if c := lastClause(cl, "unaryExpr"); c != nil {
 			if ic := innerCase(c, "n.anc.kind == assignStmt && n.anc.action == aAssign"); ic != nil {
+				excluded := strings.HasSuffix(src(ic.List[0]), "&& n.action != aRecv")
+				test := ""
 				for _, st := range ic.Body {
 					if is, ok := st.(*ast.IfStmt); ok && strings.Contains(src(is.Cond), "isInterface(dest.typ) && !isInterface(n.typ)") {
-						recvAssign = src(is.Cond) == "dest.typ != nil && isInterface(dest.typ) && !isInterface(n.typ)"
+						test = src(is.Cond)
 					}
+				}
+				switch {
+				case excluded && test == "dest.typ != nil && isInterface(dest.typ) && !isInterface(n.typ)":
+					recvAssign = ".plain"
+				case !excluded && test == "dest.typ != nil && isInterface(dest.typ) && !isInterface(n.typ)":
+					recvAssign = ".guarded"
+				case !excluded && test == "n.action != aRecv && dest.typ != nil && isInterface(dest.typ) && !isInterface(n.typ)":
+					recvAssign = ".legacy"
+				default:
+					recvAssign = ".other " + common.LeanStr(src(ic.List[0])+" / "+test)
 				}
 			}
 		}
@@ -957,8 +982,8 @@ def tcFacts : TcFacts :=
     quoFloatZeroOk := %v,
     indexNegChecked := %v,
     indexOperandChecked := %v,
-    recvDeclKeepsType := %v,
-    recvAssignChecked := %v,
+    recvDecl := %s,
+    recvAssign := %s,
     callValueChecked := %v,
     convTypedConstChecked := %v }
 `, landLor, send, sendDir, argCmp, retMany, retFew, guardedAll, assertSkip, retConst, cmpErrKept, zeroMode, opAssignZero, quoFloat,
